@@ -119,6 +119,10 @@ def derive_inputs(scn, paths, rng, n_random=4, n_dict=6):
         if m is not None:
             inputs.append(input_from_model(scn, m, paths))
     base = list(inputs)
+    # argument valuations the scenario insists on (corpus entries whose point is one particular input)
+    for extra in scn.get("extra_args") or []:
+        src = base[0] if base else {"caller": ADDR_POOL[0], "origin": ADDR_POOL[0], "value": 0, "args": {}, "balances": {}}
+        inputs.append(dict(src, args={**{s_[1]: 0 for s_ in scn["calldata"] if s_[0] == "s"}, **src["args"], **{k: int(v) for k, v in extra.items()}}))
     boundary = [0, 1, 2, (1 << 255), (1 << 256) - 1, (1 << 128), 42, 255, 256]
     for _ in range(n_random):
         inp = {"caller": rng.choice(ADDR_POOL), "origin": rng.choice(ADDR_POOL),
